@@ -227,6 +227,16 @@ pub fn compare(r: &RefMsg, o: &ObsMsg) -> Vec<Mismatch> {
                     // a scaled value that was transmitted but is reported as absent is not
                     // reported as raw/divisor either: C10 is violated along with C11 (the reverse,
                     // a 'not available' code reported as a value, is C11's alone)
+                    if let (Exp::OU(Some(_)), Val::OU(None)) = (&e.exp, v) {
+                        // likewise for a plain optional field: a transmitted value that is not
+                        // reported is not "decoded to the transmitted value" (C04)
+                        out.push(Mismatch {
+                            key: keyname(e.key, e.idx),
+                            prop: 4,
+                            expected: format!("{:?}", e.exp),
+                            observed: "absent, although the transmitted raw value is not the 'not available' code".into(),
+                        });
+                    }
                     if let (Exp::F(Some(_)), Val::F(None), 10) = (&e.exp, v, e.prop) {
                         out.push(Mismatch {
                             key: keyname(e.key, e.idx),
